@@ -168,6 +168,8 @@ def run(ctx: Ctx) -> dict:
         row = table.get(cc)
         if row:
             ops.append({"op": "iban.bank", "t": cps(gen.valid_iban(row, rng))})
+    import fuzz
+    ops = fuzz.extend(ctx, ops, "c12", n_seeds=600, quick=1500, thorough=20000)
     events = calls.execute(ctx, ops, "lk")
     mism = calls.validate(ctx, "TraceLookup", events, env, "lk", per_shard=500 if ctx.quick else 2500)
     calls.report(ctx, mism, None, keyfn)
